@@ -11,7 +11,7 @@ run_demo() { case "$DEMO" in *demo_test.py) /venv/bin/python -m pytest -q -p no:
 R_WITHOUT=$(run_demo without)
 git apply "$D/patch.diff" || { echo "patch does not apply" > "$D/VERIFY.txt"; exit 9; }
 R_WITH=$(run_demo with)
-/venv/bin/python -m pytest -q -p no:cacheprovider --timeout=900 --continue-on-collection-errors -x --deselect tests/test_hypothesis.py::test_job_creation --ignore=tests/integration > /tmp/seedverify/$N.suite 2>&1
+unshare -n sh -c "ip link set lo up; /venv/bin/python -m pytest -q -p no:cacheprovider --timeout=900 --continue-on-collection-errors --deselect tests/test_hypothesis.py::test_job_creation --ignore=tests/integration" > /tmp/seedverify/$N.suite 2>&1
 R_SUITE=$?
 SUMMARY=$(tail -1 /tmp/seedverify/$N.suite)
 cd /; git -C /repo worktree remove --force "$W"
